@@ -18,15 +18,15 @@ RULE = ("fully annotated, bytes-free types from grammar U x valid values, a thir
         "(IntEnum/bool for int, str subclasses, pendulum DateTime/Date/Time/Duration, OrderedDict/deque/custom Mapping & "
         "Sequence containers); one evaluation = one marshal call judged by the closure oracle (exact builtin classes at every "
         "node, stdlib json accepts it, repeat call equal, no mutable container shared with the input, input unchanged); plus "
-        "Literal types x member / non-member inputs; distinct = (type source, canonical value)")
+        "Literal types x member / non-member inputs; plus the repository's own test-suite run under a marshal monitor (plain output / repeatability / input untouched on every marshal call and routine call the suite makes); distinct = (type source, canonical value)")
 ASSUMPTIONS = [
     "Any / unparameterised containers are pass-through by contract and are not generated",
     "subclass instances are only swapped in at union-free positions (a union would dispatch them by the first-acceptor rule, C08)",
     "'same on every call' is judged on the same live object in one process (set iteration order is stable there)",
 ]
 PLAN = {"quick": dict(programs=5000, depth=3, values=8), "thorough": dict(programs=40000, depth=5, values=14)}
-FLOORS = {"quick": {"marshal_checked": 100000, "subclass_values": 12000, "literal_nonmember_checked": 5000, "shapes": 5000},
-          "thorough": {"marshal_checked": 900000, "subclass_values": 150000, "literal_nonmember_checked": 30000, "shapes": 30000}}
+FLOORS = {"quick": {"suite_marshal_outputs_judged": 150, "suite_tests_passed": 1400, "marshal_checked": 100000, "subclass_values": 12000, "literal_nonmember_checked": 5000, "shapes": 5000},
+          "thorough": {"suite_marshal_outputs_judged": 150, "suite_tests_passed": 1400, "marshal_checked": 900000, "subclass_values": 150000, "literal_nonmember_checked": 30000, "shapes": 30000}}
 
 
 class MyStr(str):
@@ -239,3 +239,13 @@ def run_case(sh, i, plan):
 def run_shard(sh):
     plan = PLAN[sh.tier]
     sh.run_cases(per_shard(plan["programs"], sh.nshards, sh.shard), lambda i: run_case(sh, i, plan))
+
+    # second workload: the repository's own test-suite, watched by the spec-free monitors of vlib/suitemon.py (last, so that its
+    # cache state cannot shape the cases above); one shard runs it
+    if sh.shard == sh.nshards - 1:
+        from vlib import suitemon
+
+        suitemon.run_repo_suite(sh, ['marshal'])
+    else:
+        for k in ['suite_marshal_outputs_judged', 'suite_tests_passed']:
+            sh.count(k, 0)
